@@ -31,6 +31,13 @@ def dLine (ws : List String) : String := Id.run do
   let steps := ((get "steps").splitOn "|").map parseCounts
   let fin := parseCounts (get "final")
   let mut issues : List String := []
+  -- items without a destructor (`kind=plain`): only the memory accounting applies (their matcher columns still own heap
+  -- buffers that must be freed with the vector)
+  if get "kind" = "plain" then
+    if get "readable" ≠ "ok" then issues := issues ++ ["ORACLE C11 a published item lost its columns while the vector was still alive"]
+    if get "live" ≠ "0" then
+      issues := issues ++ [s!"ORACLE C11 {get "live"} bytes owned by the vector (matcher columns of items without a destructor, buckets) are still allocated after everything was dropped"]
+    return (if issues.isEmpty then "ok" else " ## ".intercalate issues)
   -- oracle on the implementation
   let vals := allValues ops
   for v in vals do
